@@ -149,16 +149,18 @@ Alphabet(s) ==
        [] s.area = "sc" -> IF Mode = "C32" THEN C32ScActs ELSE ScActs
        [] s.area = "rel" -> RelActs
        [] s.area = "sv" -> SvActs)
-    \cup (IF Mode = "C32" /\ (Rich \/ s.area = "rel") THEN EpochActs ELSE {})   \* quick: the epoch change is explored in area rel
+    \cup (IF Mode = "C32" /\ (Rich \/ s.area = "sv") THEN EpochActs ELSE {})   \* quick: the epoch change is explored in area sv
 
+\* C32 quick: two request ids in area rel (same method, different request), one id and the epoch change in area sv
+SvMaxId == IF Mode = "C32" /\ ~Rich THEN 1 ELSE MaxId
 Enabled(s, a) ==
     /\ a.t = "block" => s.height < MaxHeight
     /\ (Mode = "C32" /\ ~Rich /\ a.t = "quit") => s.signs # {}       \* quick: the epoch change happens between approvals
     /\ (Mode = "C32" /\ ~Rich /\ a.t = "commit") => \E e \in s.pool : e.st = "quit"
     /\ a.t = "relreg" => s.relAid < MaxId
     /\ a.t = "relrem" => s.relRid < MaxId
-    /\ a.t = "svreg" => s.svAid < MaxId
-    /\ a.t = "svrem" => s.svRid < MaxId
+    /\ a.t = "svreg" => s.svAid < SvMaxId
+    /\ a.t = "svrem" => s.svRid < SvMaxId
     /\ (IsApprove(a) /\ a.m = M_RELREG) => a.id < s.relAid      \* ids that were handed out
     /\ (IsApprove(a) /\ a.m = M_RELREM) => a.id < s.relRid
     /\ (IsApprove(a) /\ a.m = M_SVREG) => a.id < s.svAid
